@@ -143,7 +143,7 @@ inline int mini_run(
     int max_failures = 3) {
     double deadline = mini_now() + secs;
     long i = from, runs = 0;
-    int failures = 0;
+    int failures = 0, unreproducible = 0;
     std::map<std::string, std::uint64_t> counters;
     std::set<std::uint64_t> sigs;
     std::vector<std::string> samples;
@@ -272,7 +272,11 @@ inline int mini_run(
             MiniProbe first = mini_probe(e, c);
             if (first.key.empty()) {
                 printf("X %ld unreproducible failure in batch\n", bad);
-                return 2;
+                fflush(stdout);
+                if (++unreproducible > 20)
+                    return 2;
+                i = bad + 1;
+                continue;
             }
             MiniProbe again = mini_probe(e, c);
             J out = J::obj();
@@ -362,7 +366,7 @@ inline int mini_run(
             bin.append(reinterpret_cast<const char*>(&s), 8);
         write_file(sigfile, bin);
     }
-    return failures ? 1 : 0;
+    return failures ? 1 : (unreproducible ? 2 : 0);
 }
 
 } // namespace ys
